@@ -1076,6 +1076,77 @@ Definition reader_opts_legacy (x : xopts) : opts :=
 (* what the payload of one direction is laid out by: the specs of that direction, in list order *)
 Definition dir_specs (d : bool) (o : opts) : list spec := filter (dirb d) (merge_opts o).
 
+(* ---- format e:<enum>: utils/auto-args.c convert_enum_val (replay get_argspec_string, dump pr_args and the scripts'
+   string all go through get_enum_string with the recorded 8 bytes as a long).  The table is the list of enumerators
+   parse_enum_string keeps, sorted by value, largest first.  The value is looked up as it is; a value 2^31 .. 2^32-1
+   (a negative enumerator of an int-sized enum, passed in the low half of a register) also as that 32-bit int (after
+   the fix); otherwise the enumerators that fit are subtracted in list order ("OR-ing bit flags") and what is left is
+   shown in hex; without any name the number itself.  `val -= e_val->val` wraps like the machine's 64-bit long. *)
+Definition etable := list (list N * Z).
+Inductive edisp := EName (e : list N * Z) | EOr (es : list (list N * Z)) (rem : Z) | ENum (v : Z).
+Definition to_long (v : N) : Z := let z := Z.of_N (v mod 2 ^ 64) in (if z <? 2 ^ 63 then z else z - 2 ^ 64)%Z.
+Definition wrap_long (z : Z) : Z := let m := (z mod 2 ^ 64)%Z in (if m <? 2 ^ 63 then m else m - 2 ^ 64)%Z.
+Definition find_exact (t : etable) (v : Z) : option (list N * Z) := find (fun e => (snd e =? v)%Z) t.
+Fixpoint or_loop (t : etable) (v : Z) (acc : list (list N * Z)) : list (list N * Z) * Z :=
+  match t with
+  | [] => (acc, v)
+  | e :: r =>
+      let acc' := if (snd e <=? v)%Z then acc ++ [e] else acc in
+      let v' := if (snd e <=? v)%Z then wrap_long (v - snd e)%Z else v in
+      if (v' =? 0)%Z then (acc', v') else or_loop r v' acc'
+  end.
+Definition int_range (v : Z) : bool := ((2 ^ 31 <=? v) && (v <? 2 ^ 32))%Z.
+Definition conv_enum (t : etable) (v : Z) : edisp :=
+  match find_exact t v with
+  | Some e => EName e
+  | None =>
+      match (if int_range v then find_exact t (v - 2 ^ 32)%Z else None) with
+      | Some e => EName e
+      | None => match or_loop t v [] with
+                | ([], r) => ENum r
+                | (es, r) => EOr es r
+                end
+      end
+  end.
+(* the code as found: no second look-up *)
+Definition conv_enum_legacy (t : etable) (v : Z) : edisp :=
+  match find_exact t v with
+  | Some e => EName e
+  | None => match or_loop t v [] with ([], r) => ENum r | (es, r) => EOr es r end
+  end.
+(* the display with the value cut to an int first (seed C09-9) *)
+Definition conv_enum_int (t : etable) (v : Z) : edisp :=
+  conv_enum_legacy t (let w := (v mod 2 ^ 32)%Z in if (w <? 2 ^ 31)%Z then w else w - 2 ^ 32)%Z.
+(* what a display stands for *)
+Definition denote (d : edisp) : Z :=
+  match d with
+  | EName e => snd e
+  | EOr es r => (fold_right Z.add 0 (map snd es) + r)%Z
+  | ENum v => v
+  end.
+Definition ulong (v : Z) : N := Z.to_N (v mod 2 ^ 64).
+Fixpoint join_names (es : list (list N * Z)) : list N :=
+  match es with [] => [] | [e] => fst e | e :: r => fst e ++ [124] ++ join_names r end.
+Definition num_text (v : Z) : list N :=
+  if (100000 <? Z.abs v)%Z then [48; 120] ++ hex (ulong v)
+  else if (v <? 0)%Z then [45] ++ dec (Z.to_N (- v)) else dec (Z.to_N v).
+Definition enum_text (d : edisp) : list N :=
+  match d with
+  | EName e => fst e
+  | EOr es r => join_names es ++ (if (r =? 0)%Z then [] else [43; 48; 120] ++ hex (ulong r))
+  | ENum v => num_text v
+  end.
+(* a case of the driver: table, recorded value, the text replay / dump / the scripts showed for it *)
+Definition enum_agrees (c : etable * N * list N) : bool :=
+  let '(t, v, txt) := c in list_eqb (enum_text (conv_enum t (to_long v))) txt.
+(* ... and the property itself: the text stands for the value passed (as a long, or as the int in its low half) *)
+Definition enum_ok (c : etable * N * list N) : bool :=
+  let '(t, v, txt) := c in
+  let d := conv_enum t (to_long v) in
+  list_eqb (enum_text d) txt &&
+  (((denote d - to_long v) mod 2 ^ 64 =? 0)%Z ||
+   (int_range (to_long v) && ((denote d - (to_long v - 2 ^ 32)) mod 2 ^ 64 =? 0)%Z)).
+
 (* test cases as the driver writes them: the specs are taken from the call *)
 Definition judge_of (c : call) (o : observation) (aargs aret : list aval) : judged :=
   {| j_args := combine (filter (fun s => negb (s_idx s =? 0)) (c_specs c)) aargs;
